@@ -53,4 +53,5 @@ def main(tier):
     chk.run("R-INTRANGE", RG.intrange, r, parts=('backend',), floor=4)
     chk.run("R-SUBWINDOW", WN.subwindow, cx.cpp, floor=2)
     chk.run("R-CONSTPRESENT", B.constpresent, cx.repo, cx.templates, floor=1)
+    chk.run("R-SWITCHFIT", B.switchfit, cx.repo, floor=1)
     return chk.finish()
